@@ -1,30 +1,39 @@
 package main
 
-// Stream `writers`: validation (not proof) of the hypothesis "writers are coherent" of theorem
-// never_stale for the REAL code paths that write to the cache on behalf of a connection, on
-// sequential schedules (no goroutine races):
+// Stream `writers`: validation (not proof) of the two system hypotheses of theorems never_stale / cache_invisible
+// on the REAL code, on sequential schedules (no goroutine races):
+//
+//   - "writers are coherent": the code paths that write to the cache on behalf of a connection pair a
+//     snapshot with a Start that is not newer than an invalidation the snapshot does not reflect;
+//   - "GenLocal + in-sync invalidation": every config (or endpoint set) generation reads is named by
+//     DependentConfigs() of the entry, and every accepted change of it reaches Clear / ClearAll.
 //
 //	case <n> <world>
-//	connect <id> <base>        a proxy + bare Connection; LastPushContext = global context (as initConnection does)
-//	request <id> <cds|eds|rds> real DiscoveryServer.processRequest (first/re-request of the type):
-//	                           generates with the pair (proxy.LastPushContext, proxy.LastPushTime)
-//	change <cfg> <n>           a config is updated in the store; after the server's own pipeline has settled
-//	                           the real DiscoveryServer.Push runs once more for exactly that config key
-//	                           (initPushContext: new context, dropCacheForRequest, SetPushContext; StartPush stamps Start)
-//	push <id>                  real DiscoveryServer.pushConnection with the request of the last `change`
-//	                           (what a push-queue worker does for this connection, later)
-//	dump <id>                  real DiscoveryServer.connectionConfigDump (body of /debug/config_dump?proxyID=)
-//	check <id>                 the property: a reader with the attributes of <id>, the CURRENT global context and
-//	                           Start = now generates CDS+EDS+RDS through the server's generators (shared cache)
-//	                           and through uncached twins of the same generators; answer eq | diff:<resource>
+//	connect <id> <base> [delta]  a proxy + bare SotW (or delta) Connection; LastPushContext = global (as initConnection)
+//	request <id> <cds|eds|rds|sds>  real processRequest / processDeltaRequest: pair (LastPushContext, LastPushTime)
+//	change <cfg> <n>             a config is rewritten in the store (DestinationRule pool size, VirtualService
+//	                             retries, ServiceEntry endpoint address / extra port, EnvoyFilter patch value,
+//	                             PeerAuthentication mode) or a Kubernetes Secret is rotated; after the server's own
+//	                             handler -> ConfigUpdate -> debounce -> Push pipeline has settled the real
+//	                             DiscoveryServer.Push runs once more for that key (real StartPush pair for `push`)
+//	toggle <cfg>                 the config is deleted from / re-created in the store (DR, VS, Sidecar, EnvoyFilter)
+//	epupdate <svc> <n>           real EndpointIndex.UpdateServiceEndpoints with one address changed and NO push:
+//	                             the window between an endpoint event and the push it triggers
+//	push <id>                    real pushConnection / pushConnectionDelta with the request of the last `change`
+//	dump <id>                    real connectionConfigDump (body of /debug/config_dump?proxyID=)
+//	dumptypes <id>               real getConfigDumpByResourceType(con, nil, ...) (…&types=cds,rds,eds,sds)
+//	check <id>                   the property: a reader with the attributes of <id>, the CURRENT global context and
+//	                             Start = now generates CDS+EDS+RDS+SDS through the server's generators (shared
+//	                             cache) and through uncached twins; answer eq | diff:<resource>
 //
-// The Lean driver (spec side, theorem never_stale/cache_invisible) answers `eq` for every check.
+// The Lean driver (spec side, theorems never_stale / cache_invisible) answers `eq` for every check.
 
 import (
 	"context"
 	"errors"
 	"fmt"
 	"os"
+	"sort"
 	"strconv"
 	"time"
 
@@ -32,10 +41,12 @@ import (
 	discovery "github.com/envoyproxy/go-control-plane/envoy/service/discovery/v3"
 	"google.golang.org/grpc/metadata"
 	"google.golang.org/protobuf/proto"
+	"google.golang.org/protobuf/types/known/structpb"
+	metav1 "k8s.io/apimachinery/pkg/apis/meta/v1"
 
 	networking "istio.io/api/networking/v1alpha3"
+	securityv1 "istio.io/api/security/v1beta1"
 	"istio.io/istio/pilot/pkg/model"
-	"istio.io/istio/pilot/pkg/networking/core"
 	pxds "istio.io/istio/pilot/pkg/xds"
 	v3 "istio.io/istio/pilot/pkg/xds/v3"
 	"istio.io/istio/pilot/test/xdstest"
@@ -46,143 +57,331 @@ import (
 	"verifharness/internal/wire"
 )
 
-type sinkStream struct{}
+type sinkBase struct{}
 
-func (s *sinkStream) SetHeader(metadata.MD) error                { return nil }
-func (s *sinkStream) SendHeader(metadata.MD) error               { return nil }
-func (s *sinkStream) SetTrailer(metadata.MD)                     {}
-func (s *sinkStream) Context() context.Context                   { return context.Background() }
-func (s *sinkStream) SendMsg(any) error                          { return nil }
-func (s *sinkStream) RecvMsg(any) error                          { return nil }
+func (s *sinkBase) SetHeader(metadata.MD) error  { return nil }
+func (s *sinkBase) SendHeader(metadata.MD) error { return nil }
+func (s *sinkBase) SetTrailer(metadata.MD)       {}
+func (s *sinkBase) Context() context.Context     { return context.Background() }
+func (s *sinkBase) SendMsg(any) error            { return nil }
+func (s *sinkBase) RecvMsg(any) error            { return nil }
+
+type sinkStream struct{ sinkBase }
+
 func (s *sinkStream) Send(*discovery.DiscoveryResponse) error    { return nil }
 func (s *sinkStream) Recv() (*discovery.DiscoveryRequest, error) { return nil, errors.New("eof") }
+
+type sinkDeltaStream struct{ sinkBase }
+
+func (s *sinkDeltaStream) Send(*discovery.DeltaDiscoveryResponse) error { return nil }
+func (s *sinkDeltaStream) Recv() (*discovery.DeltaDiscoveryRequest, error) {
+	return nil, errors.New("eof")
+}
 
 type wconn struct {
 	attrs pattrs
 	p     *model.Proxy
 	con   *pxds.Connection
+	delta bool
+	subs  map[string]int // delta: how many names of a type are subscribed
+
+	pending *model.PushRequest // what the push queue holds for this connection
 }
 
 type writersWorld struct {
 	*keysWorld
 	conns   map[string]*wconn
-	lastReq *model.PushRequest
-	cdsU    model.XdsResourceGenerator
-	edsU    model.XdsResourceGenerator
-	rdsU    model.XdsResourceGenerator
+	deleted map[string]config.Config // configs currently removed by `toggle`
 	nreader int
 }
 
 func newWritersWorld(variant int) *writersWorld {
-	kw := newKeysWorld(variant)
-	cg := core.NewConfigGenerator(&model.DisabledCache{})
-	return &writersWorld{
-		keysWorld: kw, conns: map[string]*wconn{},
-		cdsU: &pxds.CdsGenerator{ConfigGenerator: cg},
-		edsU: &pxds.EdsGenerator{Cache: model.DisabledCache{}, EndpointIndex: kw.s.Discovery.Env.EndpointIndex},
-		rdsU: &pxds.RdsGenerator{ConfigGenerator: cg},
-	}
+	return &writersWorld{keysWorld: newKeysWorld(variant), conns: map[string]*wconn{}, deleted: map[string]config.Config{}}
 }
 
-var shortType = map[string]string{"cds": v3.ClusterType, "eds": v3.EndpointType, "rds": v3.RouteType}
+var shortType = map[string]string{"cds": v3.ClusterType, "eds": v3.EndpointType, "rds": v3.RouteType, "sds": v3.SecretType}
 
-func (w *writersWorld) resourceNames(p *model.Proxy, typ string) []string {
+var sdsNames = []string{"kubernetes://tls-a", "kubernetes://tls-a-cacert", "kubernetes://ns-b/tls-a", "kubernetes://default/tls-a", "kubernetes://missing"}
+
+func (w *keysWorld) resourceNames(p *model.Proxy, typ string) []string {
 	switch typ {
 	case "eds":
 		return xdstest.ExtractEdsClusterNames(w.s.Clusters(p)) // uncached helper generator, only to learn the names
 	case "rds":
 		return xdstest.ExtractRoutesFromListeners(w.s.Listeners(p))
+	case "sds":
+		return sdsNames
 	}
 	return nil
 }
 
-// changeConfig rewrites one numeric knob of a config of the mesh.
-func (w *writersWorld) changeConfig(which string, n int) (model.ConfigKey, bool) {
-	store := w.s.Store()
-	switch which {
-	case "dr-a", "dr-b", "dr-a-nsb", "dr-sel":
-		ns := "default"
-		if which == "dr-b" || which == "dr-a-nsb" {
-			ns = "ns-b"
-		}
-		cur := store.Get(gvk.DestinationRule, which, ns)
-		if cur == nil {
-			return model.ConfigKey{}, false
-		}
-		c := cur.DeepCopy()
-		dr := c.Spec.(*networking.DestinationRule)
-		if dr.TrafficPolicy == nil {
-			dr.TrafficPolicy = &networking.TrafficPolicy{}
-		}
-		dr.TrafficPolicy.ConnectionPool = &networking.ConnectionPoolSettings{Tcp: &networking.ConnectionPoolSettings_TCPSettings{MaxConnections: int32(100 + n)}}
-		if _, err := store.Update(c); err != nil {
-			panic(err)
-		}
-		return model.ConfigKey{Kind: kind.DestinationRule, Name: which, Namespace: ns}, true
-	case "vs-a", "vs-b":
-		ns := "default"
-		if which == "vs-b" {
-			ns = "ns-b"
-		}
-		cur := store.Get(gvk.VirtualService, which, ns)
-		if cur == nil {
-			return model.ConfigKey{}, false
-		}
-		c := cur.DeepCopy()
-		vs := c.Spec.(*networking.VirtualService)
-		for _, h := range vs.Http {
-			h.Retries = &networking.HTTPRetry{Attempts: int32(1 + n%7)}
-		}
-		if _, err := store.Update(c); err != nil {
-			panic(err)
-		}
-		return model.ConfigKey{Kind: kind.VirtualService, Name: which, Namespace: ns}, true
-	}
-	return model.ConfigKey{}, false
+// where the named configs of the mesh live
+var cfgHome = map[string]struct {
+	gvk config.GroupVersionKind
+	ns  string
+}{
+	"dr-a": {gvk.DestinationRule, "default"}, "dr-b": {gvk.DestinationRule, "ns-b"}, "dr-a-nsb": {gvk.DestinationRule, "ns-b"},
+	"dr-sel": {gvk.DestinationRule, "default"}, "dr-dns": {gvk.DestinationRule, "default"},
+	"vs-a": {gvk.VirtualService, "default"}, "vs-b": {gvk.VirtualService, "ns-b"}, "vs-c-src": {gvk.VirtualService, "default"},
+	"sc-b": {gvk.Sidecar, "ns-b"}, "sc-reg": {gvk.Sidecar, "default"}, "sc-labelled": {gvk.Sidecar, "default"},
+	"ef-labels": {gvk.EnvoyFilter, "default"}, "ef-version": {gvk.EnvoyFilter, "istio-system"},
+	"se-a": {gvk.ServiceEntry, "default"}, "se-b": {gvk.ServiceEntry, "ns-b"}, "se-c": {gvk.ServiceEntry, "default"},
+	"pa-default": {gvk.PeerAuthentication, "istio-system"}, "pa-nsb": {gvk.PeerAuthentication, "ns-b"},
 }
 
-func (w *writersWorld) generateWith(cds, eds, rds model.XdsResourceGenerator, p *model.Proxy) map[string]proto.Message {
-	out := map[string]proto.Message{}
-	req := &model.PushRequest{Forced: true, Push: w.s.PushContext(), Start: time.Now()}
-	add := func(prefix string, rs model.Resources, err error) {
+func cfgName(which string) string {
+	switch which {
+	case "pa-default":
+		return "default"
+	case "pa-nsb":
+		return "nsb"
+	}
+	return which
+}
+
+func kindOf(g config.GroupVersionKind) kind.Kind { return kind.FromString(g.Kind) }
+
+// changeConfig rewrites one knob of a config of the mesh. ok=false: the world does not have it (any more).
+func (w *writersWorld) changeConfig(which string, n int) (model.ConfigKey, bool) {
+	store := w.s.Store()
+	if which == "secret" {
+		cl := w.sdsClients["Kubernetes"]
+		sec, err := cl.Kube().CoreV1().Secrets("default").Get(context.Background(), "tls-a", metav1.GetOptions{})
 		if err != nil {
 			panic(err)
 		}
-		for _, r := range rs {
-			m, e := r.Resource.UnmarshalNew()
-			if e != nil {
-				panic(e)
+		sec = sec.DeepCopy()
+		sec.Data["tls.crt"] = []byte(fmt.Sprintf("cert-default-%d", n))
+		sec.Data["tls.key"] = []byte(fmt.Sprintf("key-default-%d", n))
+		if _, err := cl.Kube().CoreV1().Secrets("default").Update(context.Background(), sec, metav1.UpdateOptions{}); err != nil {
+			panic(err)
+		}
+		return model.ConfigKey{Kind: kind.Secret, Name: "tls-a", Namespace: "default"}, true
+	}
+	base := which
+	switch which {
+	case "se-a-ep", "se-a-port", "se-a-addr":
+		base = "se-a"
+	case "se-c-addr":
+		base = "se-c"
+	case "se-b-ep":
+		base = "se-b"
+	}
+	home, known := cfgHome[base]
+	if !known {
+		return model.ConfigKey{}, false
+	}
+	cur := store.Get(home.gvk, cfgName(base), home.ns)
+	if cur == nil {
+		return model.ConfigKey{}, false
+	}
+	c := cur.DeepCopy()
+	key := model.ConfigKey{Kind: kindOf(home.gvk), Name: cfgName(base), Namespace: home.ns}
+	switch spec := c.Spec.(type) {
+	case *networking.DestinationRule:
+		if spec.TrafficPolicy == nil {
+			spec.TrafficPolicy = &networking.TrafficPolicy{}
+		}
+		spec.TrafficPolicy.ConnectionPool = &networking.ConnectionPoolSettings{Tcp: &networking.ConnectionPoolSettings_TCPSettings{MaxConnections: int32(100 + n)}}
+	case *networking.VirtualService:
+		for _, h := range spec.Http {
+			h.Retries = &networking.HTTPRetry{Attempts: int32(3 + n%5)} // (the default policy has 2 attempts)
+		}
+	case *networking.ServiceEntry:
+		switch which {
+		case "se-a-port":
+			if len(spec.Ports) > 2 {
+				spec.Ports = spec.Ports[:2]
+			} else {
+				spec.Ports = append(spec.Ports, &networking.ServicePort{Number: 9100, Name: "http-extra", Protocol: "HTTP"})
 			}
-			out[prefix+"/"+r.Name] = m
+		case "se-a-addr", "se-c-addr":
+			// the VIP of the service: it becomes a virtual host domain and a listener address, the host stays
+			spec.Addresses = []string{fmt.Sprintf("10.60.%d.%d", (n/200)%200, 1+n%200)}
+		default:
+			spec.Endpoints[0].Address = fmt.Sprintf("10.250.%d.%d", (n/200)%200, 1+n%200)
+		}
+		key = model.ConfigKey{Kind: kind.ServiceEntry, Name: spec.Hosts[0], Namespace: home.ns}
+	case *networking.EnvoyFilter:
+		for _, p := range spec.ConfigPatches {
+			if p.Patch != nil && p.Patch.Value != nil {
+				if _, ok := p.Patch.Value.Fields["connect_timeout"]; ok {
+					p.Patch.Value.Fields["connect_timeout"] = structpb.NewStringValue(fmt.Sprintf("%ds", 20+n%30))
+				}
+			}
+		}
+	case *securityv1.PeerAuthentication:
+		modes := []securityv1.PeerAuthentication_MutualTLS_Mode{securityv1.PeerAuthentication_MutualTLS_STRICT,
+			securityv1.PeerAuthentication_MutualTLS_PERMISSIVE, securityv1.PeerAuthentication_MutualTLS_DISABLE}
+		next := modes[n%3]
+		if spec.Mtls != nil && spec.Mtls.Mode == next {
+			next = modes[(n+1)%3]
+		}
+		spec.Mtls = &securityv1.PeerAuthentication_MutualTLS{Mode: next}
+	default:
+		return model.ConfigKey{}, false
+	}
+	if _, err := store.Update(c); err != nil {
+		panic(err)
+	}
+	return key, true
+}
+
+// toggleConfig deletes the config from the store, or re-creates it when a previous toggle deleted it.
+func (w *writersWorld) toggleConfig(which string) (model.ConfigKey, bool) {
+	home, known := cfgHome[which]
+	if !known {
+		return model.ConfigKey{}, false
+	}
+	store := w.s.Store()
+	key := model.ConfigKey{Kind: kindOf(home.gvk), Name: cfgName(which), Namespace: home.ns}
+	if old, gone := w.deleted[which]; gone {
+		old.ResourceVersion = ""
+		if _, err := store.Create(old); err != nil {
+			panic(err)
+		}
+		delete(w.deleted, which)
+		return key, true
+	}
+	cur := store.Get(home.gvk, cfgName(which), home.ns)
+	if cur == nil {
+		return model.ConfigKey{}, false
+	}
+	w.deleted[which] = cur.DeepCopy()
+	if err := store.Delete(home.gvk, cfgName(which), home.ns, nil); err != nil {
+		panic(err)
+	}
+	return key, true
+}
+
+// settle waits until the server's own (asynchronous) handler/debounce/push pipeline has seen the event and has
+// published it, and stays quiet - otherwise its push would race with the following ops - and then runs the real
+// Push once more for the key, which gives the request a push-queue worker would later hand to pushConnection.
+func (w *writersWorld) settle(before int64, key model.ConfigKey) {
+	s := w.s
+	deadline := time.Now().Add(5 * time.Second)
+	for s.Discovery.InboundUpdates.Load() == before && time.Now().Before(deadline) {
+		time.Sleep(200 * time.Microsecond)
+	}
+	deadline = time.Now().Add(20 * time.Second)
+	for time.Now().Before(deadline) {
+		seen := s.Discovery.InboundUpdates.Load()
+		if s.Discovery.CommittedUpdates.Load() < seen {
+			time.Sleep(500 * time.Microsecond)
+			continue
+		}
+		time.Sleep(3 * time.Millisecond)
+		if s.Discovery.InboundUpdates.Load() == seen && s.Discovery.CommittedUpdates.Load() >= seen {
+			break
 		}
 	}
-	r1, _, err := cds.Generate(p, &model.WatchedResource{TypeUrl: v3.ClusterType}, req)
-	add("cds", r1, err)
-	r2, _, err := eds.Generate(p, &model.WatchedResource{TypeUrl: v3.EndpointType, ResourceNames: sets.New(w.resourceNames(p, "eds")...)}, req)
-	add("eds", r2, err)
-	r3, _, err := rds.Generate(p, &model.WatchedResource{TypeUrl: v3.RouteType, ResourceNames: sets.New(w.resourceNames(p, "rds")...)}, req)
-	add("rds", r3, err)
-	return out
+	req := &model.PushRequest{ConfigsUpdated: sets.New(key), Reason: model.NewReasonStats(model.ConfigUpdate)}
+	s.Discovery.Push(req) // real initPushContext (new context, Clear, publish) + StartPush (stamps Start)
+	// StartPush enqueues the request for every connection; the push queue merges it into what is still pending
+	// for that connection (real PushRequest.CopyMerge, as PushQueue.Enqueue does)
+	for _, c := range w.conns {
+		c.pending = c.pending.CopyMerge(req)
+	}
+}
+
+var epServices = map[string][2]string{
+	"a": {"a.example.com", "default"}, "b": {"b.example.com", "ns-b"}, "hb": {"hb.example.com", "default"},
+	"nl": {"nl.default.svc.cluster.local", "default"},
+}
+
+// epUpdate calls the real EndpointIndex.UpdateServiceEndpoints (what every registry's EDSUpdate does first)
+// with one address of one shard changed; no push follows.
+func (w *writersWorld) epUpdate(svc string, n int) bool {
+	hn, ok := epServices[svc]
+	if !ok {
+		return false
+	}
+	idx := w.s.Discovery.Env.EndpointIndex
+	shards, ok := idx.ShardsForService(hn[0], hn[1])
+	if !ok {
+		return false
+	}
+	shards.RLock()
+	var keys []model.ShardKey
+	for k := range shards.Shards {
+		keys = append(keys, k)
+	}
+	sort.Slice(keys, func(i, j int) bool { return keys[i].String() < keys[j].String() })
+	var eps []*model.IstioEndpoint
+	if len(keys) > 0 {
+		for _, e := range shards.Shards[keys[0]] {
+			eps = append(eps, e.DeepCopy())
+		}
+	}
+	shards.RUnlock()
+	if len(eps) == 0 {
+		return false
+	}
+	eps[0].Addresses = []string{fmt.Sprintf("10.251.%d.%d", (n/200)%200, 1+n%200)}
+	idx.UpdateServiceEndpoints(keys[0], hn[0], hn[1], eps, false)
+	return true
 }
 
 func (w *writersWorld) apply(f []string) string {
 	s := w.s
 	switch {
-	case f[0] == "connect" && len(f) == 3:
+	case f[0] == "connect" && (len(f) == 3 || len(f) == 4):
 		bv, _ := strconv.Atoi(f[2])
 		a := basePattrs(bv)
 		p := w.proxy(a, f[1])
 		p.LastPushContext = s.PushContext()
 		p.WatchedResources = map[string]*model.WatchedResource{}
-		w.conns[f[1]] = &wconn{attrs: a, p: p, con: pxds.VerifC06NewConnection(p, &sinkStream{})}
+		c := &wconn{attrs: a, p: p, delta: len(f) == 4 && f[3] == "delta", subs: map[string]int{}}
+		c.delta = c.delta && extAvailable
+		if c.delta {
+			c.con = extNewDeltaConn(p)
+		} else {
+			c.con = pxds.VerifC06NewConnection(p, &sinkStream{})
+		}
+		w.conns[f[1]] = c
 		return "ok"
 	case f[0] == "request" && len(f) == 3:
 		c, t := w.conns[f[1]], shortType[f[2]]
 		if c == nil || t == "" {
 			return "bad-op"
 		}
-		req := &discovery.DiscoveryRequest{TypeUrl: t, ResourceNames: w.resourceNames(c.p, f[2])}
-		if err := pxds.VerifC06ProcessRequest(s.Discovery, req, c.con); err != nil {
+		var err error
+		if c.delta {
+			// a delta server answers a repeated request only when the subscription changes: subscribe the names
+			// in chunks (and start over once everything is subscribed)
+			names := w.resourceNames(c.p, f[2])
+			sort.Sort(sort.Reverse(sort.StringSlice(names))) // ("80", the busiest route, comes in the last chunk)
+			req := &discovery.DeltaDiscoveryRequest{TypeUrl: t}
+			if len(names) > 0 {
+				k := c.subs[f[2]]
+				if k >= len(names) {
+					if err := extProcessDelta(s.Discovery, &discovery.DeltaDiscoveryRequest{TypeUrl: t, ResourceNamesUnsubscribe: names}, c.con); err != nil {
+						return "err"
+					}
+					k = 0
+				}
+				n := (len(names) + 1) / 2
+				if k+n > len(names) {
+					n = len(names) - k
+				}
+				req.ResourceNamesSubscribe = names[k : k+n]
+				c.subs[f[2]] = k + n
+			}
+			err = extProcessDelta(s.Discovery, req, c.con)
+			if os.Getenv("C06_DEBUG") != "" {
+				var names []string
+				for _, e := range model.VerifC06Snapshot(s.Discovery.Cache, model.RDSType).Store {
+					if e.Value != nil {
+						names = append(names, fmt.Sprintf("%s@%d", e.Value.Name, e.Token%1000000000))
+					}
+				}
+				fmt.Fprintln(os.Stderr, "delta request", f[2], "subscribe", req.ResourceNamesSubscribe, "err", err, "rds entries", names, "rds keys", len(s.Discovery.Cache.Keys(model.RDSType)),
+					"ctx", c.p.LastPushContext.PushVersion, "global", s.PushContext().PushVersion, "lastpushtime", c.p.LastPushTime)
+			}
+		} else {
+			err = pxds.VerifC06ProcessRequest(s.Discovery, &discovery.DiscoveryRequest{TypeUrl: t, ResourceNames: w.resourceNames(c.p, f[2])}, c.con)
+		}
+		if err != nil {
 			return "err"
 		}
 		return "ok"
@@ -193,38 +392,37 @@ func (w *writersWorld) apply(f []string) string {
 		if !ok {
 			return "ok" // the world variant dropped this config
 		}
-		// wait until the server's own (asynchronous) handler/debounce/push pipeline has seen the store event
-		// and has published it, and stays quiet - otherwise its push would race with the following ops
-		deadline := time.Now().Add(5 * time.Second)
-		for s.Discovery.InboundUpdates.Load() == before && time.Now().Before(deadline) {
-			time.Sleep(200 * time.Microsecond)
+		w.settle(before, key)
+		return "ok"
+	case f[0] == "toggle" && len(f) == 2:
+		before := s.Discovery.InboundUpdates.Load()
+		key, ok := w.toggleConfig(f[1])
+		if !ok {
+			return "ok"
 		}
-		deadline = time.Now().Add(20 * time.Second)
-		for time.Now().Before(deadline) {
-			seen := s.Discovery.InboundUpdates.Load()
-			if s.Discovery.CommittedUpdates.Load() < seen {
-				time.Sleep(500 * time.Microsecond)
-				continue
-			}
-			time.Sleep(3 * time.Millisecond)
-			if s.Discovery.InboundUpdates.Load() == seen && s.Discovery.CommittedUpdates.Load() >= seen {
-				break
-			}
-		}
-		req := &model.PushRequest{ConfigsUpdated: sets.New(key), Reason: model.NewReasonStats(model.ConfigUpdate)}
-		s.Discovery.Push(req) // real initPushContext (new context, Clear, publish) + StartPush (stamps Start)
-		w.lastReq = req
+		w.settle(before, key)
+		return "ok"
+	case f[0] == "epupdate" && len(f) == 3:
+		n, _ := strconv.Atoi(f[2])
+		w.epUpdate(f[1], n)
 		return "ok"
 	case f[0] == "push" && len(f) == 2:
 		c := w.conns[f[1]]
 		if c == nil {
 			return "bad-op"
 		}
-		req := w.lastReq
+		req := c.pending
+		c.pending = nil
 		if req == nil {
-			req = &model.PushRequest{Push: s.PushContext(), Start: time.Now(), Forced: true}
+			return "ok" // nothing queued for this connection
 		}
-		if err := pxds.VerifC06PushConnection(s.Discovery, c.con, req); err != nil {
+		var err error
+		if c.delta {
+			err = extPushDelta(s.Discovery, c.con, req)
+		} else {
+			err = pxds.VerifC06PushConnection(s.Discovery, c.con, req)
+		}
+		if err != nil {
 			return "err"
 		}
 		return "ok"
@@ -233,12 +431,16 @@ func (w *writersWorld) apply(f []string) string {
 		if c == nil {
 			return "bad-op"
 		}
-		if os.Getenv("C06_DEBUG") != "" {
-			fmt.Fprintln(os.Stderr, "dump: proxy ctx", c.p.LastPushContext.PushVersion, "global", s.PushContext().PushVersion, "cds keys", len(s.Discovery.Cache.Keys(model.CDSType)))
-		}
 		if err := pxds.VerifC06ConfigDump(s.Discovery, c.con, true); err != nil {
 			return "err"
 		}
+		return "ok"
+	case f[0] == "dumptypes" && len(f) == 2:
+		c := w.conns[f[1]]
+		if c == nil {
+			return "bad-op"
+		}
+		extDumpTypes(s.Discovery, c.con, []string{v3.ClusterType, v3.RouteType, v3.EndpointType, v3.SecretType})
 		return "ok"
 	case f[0] == "check" && len(f) == 2:
 		c := w.conns[f[1]]
@@ -247,14 +449,20 @@ func (w *writersWorld) apply(f []string) string {
 		}
 		w.nreader++
 		reader := w.proxy(c.attrs, fmt.Sprintf("reader%d", w.nreader))
-		gens := s.Discovery.Generators
-		warm := w.generateWith(gens[v3.ClusterType], gens[v3.EndpointType], gens[v3.RouteType], reader)
-		cold := w.generateWith(w.cdsU, w.edsU, w.rdsU, reader)
+		k0 := len(s.Discovery.Cache.Keys(model.RDSType))
+		warm := w.generateWith(w.gens, reader)
+		if os.Getenv("C06_DEBUG") != "" {
+			fmt.Fprintln(os.Stderr, "check: rds keys before", k0, "after", len(s.Discovery.Cache.Keys(model.RDSType)))
+		}
+		cold := w.generateWith(w.twins, reader)
 		if os.Getenv("C06_DEBUG") != "" {
 			n := "cds/outbound|80||a.example.com"
-			fmt.Fprintln(os.Stderr, "check warm:", fmt.Sprint(warm[n])[:0], protoField(warm[n]), "cold:", protoField(cold[n]))
+			fmt.Fprintln(os.Stderr, "check warm:", protoField(warm[n]), "cold:", protoField(cold[n]))
 		}
 		if d := diffOutputs(warm, cold); d != "" {
+			if os.Getenv("C06_DEBUG") != "" {
+				fmt.Fprintf(os.Stderr, "WARM %v\nCOLD %v\n", warm[d], cold[d])
+			}
 			return "diff:" + d
 		}
 		return "eq"
@@ -262,7 +470,9 @@ func (w *writersWorld) apply(f []string) string {
 	return "bad-op"
 }
 
-var changeable = []string{"dr-a", "dr-b", "dr-a-nsb", "dr-sel", "vs-a", "vs-b"}
+var changeable = []string{"dr-a", "dr-b", "dr-a-nsb", "dr-sel", "vs-a", "vs-b", "vs-c-src", "se-a-ep", "se-b-ep", "se-a-port", "se-a-addr", "se-c-addr",
+	"ef-labels", "ef-version", "pa-default", "pa-nsb", "secret"}
+var toggleable = []string{"dr-a", "dr-b", "dr-sel", "vs-a", "vs-c-src", "sc-b", "sc-reg", "ef-labels", "ef-version", "pa-nsb"}
 
 func genWriters(seed uint64, n int, path string) {
 	out := wire.Create(path)
@@ -271,27 +481,38 @@ func genWriters(seed uint64, n int, path string) {
 	for c := 0; c < n; c++ {
 		world := 0
 		if c > 0 && r.Chance(1, 2) {
-			world = r.Intn(256) & r.Intn(256)
+			world = (r.Intn(1<<keysWorldBits) & r.Intn(1<<keysWorldBits)) &^ 256
 		}
 		out.Line("case", strconv.Itoa(c), strconv.Itoa(world))
 		ids := []string{"x", "y", "z"}[:1+r.Intn(3)]
 		for _, id := range ids {
-			out.Line("connect", id, strconv.Itoa(r.Intn(4)))
+			if r.Chance(1, 3) {
+				out.Line("connect", id, strconv.Itoa(r.Intn(4)), "delta")
+			} else {
+				out.Line("connect", id, strconv.Itoa(r.Intn(4)))
+			}
 		}
 		nops := 6 + r.Intn(25)
 		ver := 0
 		for i := 0; i < nops; i++ {
 			id := wire.Pick(r, ids)
 			switch x := r.Intn(100); {
-			case x < 25:
-				out.Line("request", id, wire.Pick(r, []string{"cds", "eds", "rds"}))
-			case x < 45:
+			case x < 22:
+				out.Line("request", id, wire.Pick(r, []string{"cds", "eds", "rds", "sds"}))
+			case x < 40:
 				ver++
 				out.Line("change", wire.Pick(r, changeable), strconv.Itoa(ver))
-			case x < 60:
+			case x < 46:
+				out.Line("toggle", wire.Pick(r, toggleable))
+			case x < 52:
+				ver++
+				out.Line("epupdate", wire.Pick(r, []string{"a", "b", "hb", "nl"}), strconv.Itoa(ver))
+			case x < 62:
 				out.Line("push", id)
-			case x < 75:
+			case x < 70:
 				out.Line("dump", id)
+			case x < 76:
+				out.Line("dumptypes", id)
 			default:
 				out.Line("check", id)
 			}
@@ -302,38 +523,57 @@ func genWriters(seed uint64, n int, path string) {
 	}
 }
 
-func execWriters(opsPath, outPath string) {
-	all := wire.ReadLines(opsPath)
-	out := wire.Create(outPath)
-	defer out.Close()
+// runWritersCase executes one case; crashed reports a panic (e.g. a wall-clock deadline of the fake server).
+func runWritersCase(c [][]string) (outs []string, crashed bool) {
 	var w *writersWorld
-	for _, f := range all {
+	defer func() {
+		if w != nil {
+			w.close()
+		}
+	}()
+	for _, f := range c {
 		func() {
 			defer func() {
 				if r := recover(); r != nil {
-					out.Line("crash")
+					outs = append(outs, "crash")
+					crashed = true
 					fmt.Fprintln(os.Stderr, "c06 writers: panic:", r)
 				}
 			}()
 			if f[0] == "case" && len(f) == 3 {
-				if w != nil {
-					w.close()
-				}
 				wv, _ := strconv.Atoi(f[2])
 				w = newWritersWorld(wv)
-				out.Line("ok")
+				outs = append(outs, "ok")
 				return
 			}
 			if w == nil {
-				out.Line("bad-op")
+				outs = append(outs, "bad-op")
 				return
 			}
-			out.Line(w.apply(f))
+			outs = append(outs, w.apply(f))
 		}()
+	}
+	return outs, crashed
+}
+
+func execWriters(opsPath, outPath string) {
+	all := wire.ReadLines(opsPath)
+	out := wire.Create(outPath)
+	defer out.Close()
+	retried := 0
+	for _, c := range splitCases(all) {
+		outs, crashed := runWritersCase(c)
+		if crashed { // wall-clock deadlines on a loaded machine: one more try before reporting a break
+			retried++
+			outs, _ = runWritersCase(c)
+		}
+		for _, l := range outs {
+			out.Line(l)
+		}
 		out.Flush()
 	}
-	if w != nil {
-		w.close()
+	if retried > 0 {
+		fmt.Fprintf(os.Stderr, "c06 writers: %d case(s) retried after a panic\n", retried)
 	}
 }
 
@@ -378,18 +618,16 @@ func oracleWriters(opsPath, outPath string) {
 	}
 }
 
-// lastWriter names the most recent cache-writing code path other than the checks themselves.
+// lastWriter names the most recent op that can make the cache differ from fresh generation.
 func lastWriter(hist []string) string {
 	for i := len(hist) - 1; i >= 0; i-- {
 		switch hist[i] {
-		case "dump", "request", "push":
+		case "dump", "dumptypes", "request", "push", "epupdate", "change", "toggle":
 			return hist[i]
 		}
 	}
 	return "none"
 }
-
-var _ = config.Config{}
 
 func protoField(m proto.Message) string {
 	if m == nil {
